@@ -186,6 +186,53 @@ func c19CloseRule(w *World, r *Report, rule string, s safeType) {
 		fa, ok := st.Addr.(*ssa.FieldAddr)
 		return ok && fieldVarOf(fa) == s.Flag
 	}
+	isFlagLoad := func(v ssa.Value) bool { return isLoadOfField(v, s.Flag) }
+	// the whole body may be delegated to a helper that is handed the address of the flag and the inner
+	// resource: `return closeOnce(&x.closed, x.Conn)`. The helper is then analysed in place of the method,
+	// with the flag seen through its pointer parameter.
+	if len(fn.Blocks) == 1 {
+		for _, c := range callsIn(fn) {
+			call, ok := c.(*ssa.Call)
+			if !ok {
+				continue
+			}
+			h := call.Call.StaticCallee()
+			if h == nil || !inModule(h) || len(h.Blocks) == 0 {
+				continue
+			}
+			flagIdx, innerIdx := -1, -1
+			for i, a := range call.Call.Args {
+				if fa, ok := a.(*ssa.FieldAddr); ok && fieldVarOf(fa) == s.Flag {
+					flagIdx = i
+				} else if recvFieldLoad(fn, a, s.Flag) {
+					innerIdx = i
+				}
+			}
+			ret, isRet := fn.Blocks[0].Instrs[len(fn.Blocks[0].Instrs)-1].(*ssa.Return)
+			if flagIdx < 0 || innerIdx < 0 || !isRet || len(ret.Results) != 1 || ret.Results[0] != ssa.Value(call) {
+				continue
+			}
+			flagP, innerP := h.Params[flagIdx], h.Params[innerIdx]
+			fn = h
+			isInner = func(v ssa.Value) bool {
+				for _, root := range provenance(v, provOpts{}) {
+					if root == ssa.Value(innerP) {
+						return true
+					}
+				}
+				return v == ssa.Value(innerP)
+			}
+			isFlagStore = func(in ssa.Instruction) bool {
+				st, ok := in.(*ssa.Store)
+				return ok && st.Addr == ssa.Value(flagP)
+			}
+			isFlagLoad = func(v ssa.Value) bool {
+				u, ok := v.(*ssa.UnOp)
+				return ok && u.Op == token.MUL && u.X == ssa.Value(flagP)
+			}
+			break
+		}
+	}
 	isEvent := func(in ssa.Instruction) bool {
 		if isFlagStore(in) {
 			return true
@@ -213,7 +260,7 @@ func c19CloseRule(w *World, r *Report, rule string, s safeType) {
 		// truth of the entry flag on this path
 		var flagKnown, flagVal bool
 		for v, t := range e.State.Facts {
-			if isLoadOfField(v, s.Flag) {
+			if isFlagLoad(v) {
 				// the load must precede any flag store on the path: loads happen in source order; the
 				// repo idiom tests the flag first. Accept only loads in the entry block.
 				if in, ok := v.(ssa.Instruction); ok && in.Block() == fn.Blocks[0] {
@@ -736,9 +783,11 @@ func c19Helpers(w *World, r *Report) {
 			paths++
 			var closeEv ssa.CallInstruction
 			var closedCalls []*ssa.Call
+			ncloses := 0
 			for _, ev := range e.State.Events {
 				c := ev.(ssa.CallInstruction)
 				if c.Common().Method.Name() == "Close" {
+					ncloses++
 					if closeEv == nil {
 						closeEv = c
 					}
@@ -750,11 +799,15 @@ func c19Helpers(w *World, r *Report) {
 				return
 			}
 			closing++
+			if ncloses > 1 {
+				bad = "Close() is called more than once on the same value on one path (a retry): the underlying resource is closed twice"
+				return
+			}
 			// the comma-ok of the type assertion to Closed
 			okKnown, okVal := false, false
 			for v, t := range e.State.Facts {
 				if ex, isEx := v.(*ssa.Extract); isEx && ex.Index == 1 {
-					if ta, isTA := ex.Tuple.(*ssa.TypeAssert); isTA && fromParam(ta.X) {
+					if ta, isTA := ex.Tuple.(*ssa.TypeAssert); isTA && fromParam(ta.X) && types.NewMethodSet(ta.AssertedType).Lookup(nil, "Closed") != nil {
 						okKnown, okVal = true, t
 					}
 				}
